@@ -120,7 +120,7 @@ func Resume(
 		}
 	}
 
-	header, err := carv1.ReadHeader(v1r, maxAllowedHeaderSize)
+	header, offset, err := carv1.ReadHeaderAndSize(v1r, maxAllowedHeaderSize)
 	if err != nil {
 		// Cannot read the CARv1 header; the file is most likely corrupt.
 		return fmt.Errorf("error reading car header: %w", err)
@@ -162,10 +162,6 @@ func Resume(
 	// Because Index interface does not expose internal records.
 	// This may be done as part of https://github.com/ipld/go-car/issues/95
 
-	offset, err := carv1.HeaderSize(header)
-	if err != nil {
-		return err
-	}
 	sectionOffset := int64(0)
 	if sectionOffset, err = v1r.Seek(int64(offset), io.SeekStart); err != nil {
 		return err
